@@ -240,6 +240,13 @@ def _check_norms(A4):
     }
     from scipy import sparse
     got["normQsparse(csr)"] = u.normQsparse(*[sparse.csr_matrix(A4[..., c]) for c in range(4)])
+
+    def split_coo(M):
+        # the same matrix in non-canonical COO storage: every entry stored as two contributions M/2 + M/2 (exact in binary)
+        r_, c_ = np.nonzero(M)
+        v = M[r_, c_] / 2.0
+        return sparse.coo_matrix((np.concatenate([v, v]), (np.concatenate([r_, r_]), np.concatenate([c_, c_]))), shape=M.shape)
+    got["normQsparse(coo, entries stored as two contributions)"] = u.normQsparse(*[split_coo(A4[..., c]) for c in range(4)])
     if A4.shape[1] == 1:
         got["normQsparse(vector)"] = u.normQsparse(*[A4[:, 0, c].copy() for c in range(4)])
     for k, v in got.items():
